@@ -8,8 +8,10 @@ package's metadata; the result must be exactly the old or exactly the new state 
 """
 
 import bz2
+import gc
 import os
 import shutil
+import sys
 import tempfile
 
 PROPERTY = "C29"
@@ -23,7 +25,7 @@ RULE = (
     "open-for-write additionally a torn write; thorough adds one EIO per event. One evaluation = one faulted execution "
     "from a fresh copy of the pre-state followed by a fresh tree(location) listing and a read of every tracked attribute, the "
     "contents (binpkg: with file bytes), environment and ebuild of every listed package. A class is "
-    "(repository kind, operation, fault kind, audited call at the fault, outcome old/new/both)."
+    "(repository kind, operation, fault kind, kind of audited call at the fault, outcome old/new/both/partial/neither)."
 )
 ASSUMPTIONS = [
     "a crash is process death with every completed syscall durable; loss or reordering of un-synced data on power "
@@ -136,7 +138,7 @@ def view(kind, loc):
         t = _tree(kind, loc)
         pkgs = sorted(t, key=lambda p: p.cpvstr)
     except Exception as e:
-        return {"<listing>": f"ERR {type(e).__name__}: {e}"}
+        return {"<listing>": f"ERR {type(e).__name__}: {e}".replace(loc, "<repo>")}
     out = {}
     for p in pkgs:
         try:
@@ -163,7 +165,7 @@ def view(kind, loc):
                 tuple(rest),
             )
         except Exception as e:
-            out[p.cpvstr] = f"ERR {type(e).__name__}: {e}"[:300]
+            out[p.cpvstr] = f"ERR {type(e).__name__}: {e}".replace(loc, "<repo>")[:300]
     return out
 
 
@@ -256,10 +258,16 @@ class Fixture:
         # fault-free recording
         self.reset()
         st, val, self.events = self.inj.record(self.operation())
-        if st != "ok":
-            raise RuntimeError(f"fault-free run of {kind} {name} failed: {st} {val!r}")
         self.new_state = view(kind, self.repo)
-        self._sanity()
+        # a fault-free run that does not produce the new state is a violation of the property, not an engine error
+        self.ff_problem = None
+        if st != "ok":
+            self.ff_problem = f"fault-free operation did not complete: {st} {type(val).__name__}: {val}"
+        else:
+            try:
+                self._sanity()
+            except RuntimeError as e:
+                self.ff_problem = f"fault-free operation: {e}"
 
     def _install(self, t, pkg):
         op = t.operations.install(pkg)
@@ -359,8 +367,22 @@ class Fixture:
         return "mixed", f"listing {sorted(state)} is neither the old nor the new state"
 
     def execute(self, plan):
+        """_execute with late clean-up noise (AtomicWriteFile.__del__ hitting an injected or vanished path) kept off stderr."""
+        old = sys.unraisablehook
+        sys.unraisablehook = lambda u: None if isinstance(u.exc_value, OSError) else old(u)
+        try:
+            try:
+                return self._execute(plan)
+            finally:
+                gc.collect()
+        finally:
+            sys.unraisablehook = old
+
+    def _execute(self, plan):
         self.reset()
         status, _val = self.inj.run(self.operation(), plan)
+        del _val  # an exception object keeps the operation's frames (and their open temp files) alive
+        gc.collect()
         fired = self.inj.crashed_at is not None or self.inj.errored_at is not None
         state = view(self.kind, self.repo)
         outcome, msg = self.judge(state)
@@ -399,7 +421,20 @@ def _at(events, plan):
     return f"{name} {p}"
 
 
+_CALL_CLASS = {
+    "open": "open", "os.rename": "rename", "os.remove": "unlink", "os.rmdir": "rmdir", "shutil.rmtree": "rmtree",
+    "os.mkdir": "mkdir", "os.chmod": "attr", "os.chown": "attr", "os.utime": "attr", "end": "end",
+}
+
+
+def _call_class(at):
+    return _CALL_CLASS.get(at.split(" ")[0], "other")
+
+
 def work(task):
+    import logging
+
+    logging.getLogger("pkgcore").setLevel(logging.CRITICAL)  # update_mtime logs every injected EIO
     tier, kind, name, shard, nshards = task
     fx = Fixture(kind, name)
     evals = 0
@@ -409,14 +444,21 @@ def work(task):
     states = set()
     try:
         plans = _plans(fx.events, tier)
+        if fx.ff_problem:
+            plans = []
+            if shard == 0:
+                evals += 1
+                classes[f"{kind}:{fx.op}:fault-free:wrong"] = 1
+                viol.append({"repo": kind, "scenario": name, "tier": tier, "plan": ["fault-free"], "n_events": len(fx.events),
+                             "at": "fault-free", "outcome": "fault-free-wrong", "msg": f"{kind} {name}: {fx.ff_problem}"})
         for i, plan in enumerate(plans):
             if i % nshards != shard:
                 continue
             evals += 1
             status, outcome, msg = fx.execute(plan)
             at = _at(fx.events, plan)
-            call = at.split(" ")[0]
-            key = f"{kind}:{fx.op}:{plan[0]}@{call}:{outcome}"
+            where = "@" + _call_class(at) if plan[0] == "crash" else ""
+            key = f"{kind}:{fx.op}:{plan[0]}{where}:{outcome}"
             classes[key] = classes.get(key, 0) + 1
             states.add((name, outcome, at if outcome not in ("old", "new") else ""))
             if msg:
@@ -448,14 +490,21 @@ def work(task):
 
 
 def replay(case):
+    import logging
+
+    logging.getLogger("pkgcore").setLevel(logging.CRITICAL)
     fx = Fixture(case["repo"], case["scenario"])
     try:
+        if fx.ff_problem:
+            return [fx.ff_problem]
+        if case["plan"][0] == "fault-free":
+            return []
         if len(fx.events) != case["n_events"]:
-            return [f"engine: fault-free run has {len(fx.events)} events, case recorded {case['n_events']}"]
+            raise RuntimeError(f"fault-free run has {len(fx.events)} events, case recorded {case['n_events']}")
         plan = tuple(case["plan"])
         at = _at(fx.events, plan)
         if at != case["at"]:
-            return [f"engine: event {plan[1]} is {at!r}, case recorded {case['at']!r}"]
+            raise RuntimeError(f"event {plan[1]} is {at!r}, case recorded {case['at']!r}")
         _status, _outcome, msg = fx.execute(plan)
         return [msg] if msg else []
     finally:
